@@ -180,3 +180,4 @@ LEVEL_TEXT = ('Exploration over generated programs: statements from a grammar of
               'hand-listed aliasing patterns at every size; product chains over extent patterns.')
 LEVEL_NOTE = 'trusted: the eager functions as reference (their own correctness is the business of C01/C10/C12/C14/C16)'
 DESIGN_REF = 'DESIGN.md section 8 C09'
+THOROUGH_NATIVE = True      # this module's own thorough product (covering sample of 320 pairs) was soaked to silence
